@@ -36,7 +36,7 @@ func runC02(t *testing.T, hc HistoryCase) (*h.Violation, h.Info) {
 	classes := make([]model.Class, 0, len(hc.Ops))
 	finish := func(v *h.Violation) (*h.Violation, h.Info) {
 		cs, nt := dbx.HistoryClasses(hc.Ops, classes)
-		info.Classes, info.NonTrivial = cs, nt
+		info.Classes, info.NonTrivial = append(cs, info.Classes...), nt
 		if hc.Sparse {
 			info.Classes = append(info.Classes, "observed-only-through-its-own-calls")
 		}
@@ -48,6 +48,9 @@ func runC02(t *testing.T, hc HistoryCase) (*h.Violation, h.Info) {
 		want := tr.Expect(su.Rules, op, ver)
 		got := tgt.Do(su, op, ver)
 		classes = append(classes, want.Class)
+		if op.Kind == "activate" && op.VSel == "deleted" && len(tr.Deleted[op.Name]) > 0 {
+			info.Class("activate-of-a-deleted-version")
+		}
 		if diff := dbx.Compare(got, want); diff != "" {
 			v := h.V("result-equals-model", "step %d %s (version arg %d) in state %s: %s", i, op, ver, before, diff)
 			return finish(v)
